@@ -8,7 +8,10 @@ CFG = {
     "explanation": "theorems: every operation's result in any history equals its result on the freshly opened reader, for every top-layer "
                    "stream whose absolute seek forgets state (cursor; preserved by the encryption reader), any archive bytes; correspondence: "
                    "rows of the real ArchiveReader along the history equal the model's (layer-less and encrypted archives, concrete AES-GCM in "
-                   "Coq); oracle on all layer combinations: each operation in the history == the same operation on a fresh reader == what was written",
+                   "Coq); archive level for the full stack (HistStack.v): every Reader.v operation respects any bisimulation of the stream calls, so "
+                   "hist_groups over compression∘encryption∘raw∘cursor is history independent for ANY archive bytes while the reader is in the stack "
+                   "invariant (compression reader not poisoned, same sizes_info and offset_pos), which is carried along the history when every "
+                   "operation leaves the FRESH reader in it; oracle on all layer combinations: each operation in the history == the same operation on a fresh reader == what was written",
     "assumptions": ["Rust borrow rules make histories sequences (an ArchiveFile borrows the reader exclusively)",
-                    "the compression layer is covered by the oracle and, once merged, by the same SeekForgets lemma (its absolute seek rebuilds the decompressor)"],
+                    "compression layer: after an operation that fails inside the layers the reader is Empty (poisoned) and later seeks are refused — results then depend on the history (C10_comp_strict_refuted); the theorem excludes these states through the invariant Gstack"],
 }
